@@ -335,3 +335,113 @@ func positiveBound(pr *Prog, fn *Func, e ast.Expr) bool {
 	b, isBasic := v.Type().Underlying().(*types.Basic)
 	return isBasic && b.Info()&types.IsInteger != 0 && strings.HasPrefix(v.Pkg().Path(), modulePath)
 }
+
+// C10-R8: a merge heap is heapified after it has been filled.
+//
+// The three merging readers collect one buffer per non-empty input by plain
+// append and only then establish the heap order.  Every later step
+// (heap.Fix / heap.Remove after a cursor move, C10-R4) preserves the order but
+// never creates it: without the initial heap.Init the first rows come from
+// whichever input happened to be appended first, and the output is not sorted
+// (reduce: values of one key folded into another).  In each function that
+// appends to FrameBufferHeap.Buffers, heap.Init on that heap is reached on
+// every path from the appending loop to the normal exits / first use.
+func c10r8(c *RC) {
+	pr := c.P
+	n := 0
+	for _, fn := range readerFuncs(pr) {
+		if fn.Body == nil || fn.Parent != nil {
+			continue
+		}
+		// appends to <x>.Buffers inside a loop
+		var appLoop ast.Stmt
+		heapExpr := ""
+		inspectNoLit(fn.Body, func(nd ast.Node) bool {
+			a, ok := nd.(*ast.AssignStmt)
+			if !ok || len(a.Lhs) != 1 || len(a.Rhs) != 1 {
+				return true
+			}
+			sel, ok := a.Lhs[0].(*ast.SelectorExpr)
+			if !ok || pr.fieldQName(fn.Pkg.FieldOf(sel)) != "sortio.FrameBufferHeap.Buffers" {
+				return true
+			}
+			if k, ok := a.Rhs[0].(*ast.CallExpr); ok && expr(k.Fun) == "append" {
+				if lp := enclosingLoop(fn.Body, a); lp != nil {
+					appLoop = lp
+					heapExpr = strings.ReplaceAll(expr(sel.X), " ", "")
+				}
+			}
+			return true
+		})
+		if appLoop == nil {
+			continue
+		}
+		n++
+		fl := pr.Flow(fn)
+		// start: first node after the loop statement; walk; every normal exit (and every
+		// use of Buffers[0]) must have passed heap.Init(heapExpr)
+		var start Loc
+		found := false
+		var best token.Pos
+		for _, b := range fl.G.Blocks {
+			if !b.Live {
+				continue
+			}
+			for i, nd := range b.Nodes {
+				if nd.Pos() >= appLoop.End() && (!found || nd.Pos() < best) {
+					start, found, best = Loc{b, i}, true, nd.Pos()
+				}
+			}
+		}
+		if !found {
+			c.Undecide("%s: nothing follows the buffer-collecting loop", fn.QName())
+			continue
+		}
+		ok := true
+		var trail []string
+		isInit := func(nd ast.Node) bool {
+			for _, k := range callsIn(nd) {
+				if fn.Pkg.CalleeName(k) == "container/heap.Init" && len(k.Args) == 1 && strings.ReplaceAll(expr(k.Args[0]), " ", "") == heapExpr {
+					return true
+				}
+			}
+			return false
+		}
+		fl.Walk(start, "", nil, Visitor{NoFacts: true,
+			Node: func(nd ast.Node, x string, s *Step) (string, bool) {
+				if isInit(nd) {
+					return x, true
+				}
+				// first use of the heap's top
+				use := false
+				ast.Inspect(nd, func(m ast.Node) bool {
+					if ix, isIx := m.(*ast.IndexExpr); isIx && strings.HasSuffix(strings.ReplaceAll(expr(ix.X), " ", ""), heapExpr+".Buffers") {
+						use = true
+					}
+					return true
+				})
+				if use {
+					ok = false
+					trail = s.Trail()
+					return x, true
+				}
+				return x, false
+			},
+			Exit: func(kind ExitKind, ret *ast.ReturnStmt, x string, s *Step) {
+				if kind == ExitPanic {
+					return
+				}
+				// error returns (non-nil last result) are fine
+				if ret != nil && len(ret.Results) > 0 && expr(ret.Results[len(ret.Results)-1]) != "nil" {
+					if _, isCall := ret.Results[0].(*ast.UnaryExpr); !isCall {
+						return
+					}
+				}
+				ok = false
+				trail = s.Trail()
+			}})
+		c.Check(ok, fn.QName()+"|heapified-after-filling", pr.Pos(appLoop.End()),
+			"the merge heap "+heapExpr+" is filled by appending and then used (or returned) on a path that does not pass heap.Init: the heap order is never established, the first rows come from an arbitrary input, and the merged output is not sorted", trail...)
+	}
+	c.Floor("merge heaps filled by appending", n, 3)
+}
